@@ -31,13 +31,16 @@ MethodClauses(e) ==
      <<"model:step", StepOk(s0, res)>> >>
 
 NewClauses(e) ==
-  << <<"negative-capacity-accepted", ~(e.died = 0 /\ e.out.kind = "ok" /\ FitsSsize(e.a) /\ Neg(e.a))>>,
+  << \* (with initial contents the capacity argument is not what sizes the buffer: only the contents clause applies)
+     <<"negative-capacity-accepted", ~(e.died = 0 /\ e.out.kind = "ok" /\ FitsSsize(e.a) /\ Neg(e.a) /\ e.n = 0)>>,
      <<"sanitizer", e.san = "">>,
      <<"crash", e.died = 0>>,
      <<"unusable", e.usable # 0>>,
      <<"pos-out-of-range", e.out.kind = "ok" => e.pos2 = 0 /\ e.cap2 >= 0>>,
-     <<"model:outcome", e.out.kind \in NewOutcomes(e.a)>>,
-     <<"model:capacity", e.out.kind = "ok" /\ IsSmall(e.a) => e.cap2 = Val(e.a)>> >>
+     <<"model:outcome", e.n > 0 \/ e.out.kind \in NewOutcomes(e.a)>>,
+     \* initial contents given together with a capacity (e.n bytes): an accepted buffer holds them all
+     <<"initial-contents-do-not-fit", (e.died = 0 /\ e.out.kind = "ok" /\ e.n > 0) => e.cap2 >= e.n>>,
+     <<"model:capacity", (e.out.kind = "ok" /\ IsSmall(e.a) /\ e.n = 0) => e.cap2 = Val(e.a)>> >>
 
 Clauses(e) == IF e.m = "new" THEN NewClauses(e) ELSE MethodClauses(e)
 
